@@ -93,6 +93,10 @@ pub fn run(op: &str, t: &[&str], v: &[Val], out: &mut Out) -> bool {
             out.named("to_bigint", || a.to_bigint());
             out.named("t_to_biguint", || ToBigUint::to_biguint(a));
             out.named("from", || BigInt::from(a.clone()));
+            // the same conversions of a value whose buffer is much larger than the value (and, for zero, a zero that still owns a buffer)
+            out.named("to_bigint_s", || slack_u(a).to_bigint());
+            out.named("from_s", || BigInt::from(slack_u(a)));
+            out.named("to_bigint_h", || { let mut x = a.clone(); x += 7u32; x -= 7u32; x.to_bigint() });
             out.named("is_zero", || a.is_zero());
             out.named("is_one", || a.is_one());
             out.named("set_zero", || { let mut x = a.clone(); x.set_zero(); x });
